@@ -691,16 +691,29 @@ outerLoop:
 			spacing = pr.Float(inner) * table.Style.GetBorderSpacing()[0].Value
 		}
 
+		// When the rules leave a part of the excess width undistributed,
+		// the spanned columns share it: together they are
+		// never narrower than the cell.
+		spreadRest := func(rest pr.Float, widths []pr.Float) {
+			if rest <= 0 {
+				return
+			}
+			n := pr.Float(columnSlice[1] - columnSlice[0])
+			for s := columnSlice[0]; s < columnSlice[1]; s += 1 {
+				widths[s] += rest / n
+			}
+		}
+
 		if minContent > columnsMinContent+spacing {
 			excessWidth := minContent - (columnsMinContent + spacing)
-			distributeExcessWidth(context, zippedGrid, excessWidth, minContentWidths,
-				constrainedness, intrinsicPercentages, maxContentWidths, columnSlice)
+			spreadRest(distributeExcessWidth(context, zippedGrid, excessWidth, minContentWidths,
+				constrainedness, intrinsicPercentages, maxContentWidths, columnSlice), minContentWidths)
 		}
 
 		if maxContent > columnsMaxContent+spacing {
 			excessWidth := maxContent - (columnsMaxContent + spacing)
-			distributeExcessWidth(context, zippedGrid, excessWidth, maxContentWidths,
-				constrainedness, intrinsicPercentages, maxContentWidths, columnSlice)
+			spreadRest(distributeExcessWidth(context, zippedGrid, excessWidth, maxContentWidths,
+				constrainedness, intrinsicPercentages, maxContentWidths, columnSlice), maxContentWidths)
 		}
 	}
 
